@@ -307,7 +307,8 @@ Section Eval.
       let u problem := mkU (p_fromnode p) (p_tonode p) (p_fromservice p) (p_toservice p) problem in
       if beq_text (p_tonode p) self then
         if beq_text (p_toservice p) svc_ping
-        then node_handle_with self rules (mkPkt self svc_ping (p_fromnode p) (p_fromservice p))
+        then (if beq_text (p_fromservice p) svc_ping then []    (* a reply is not answered *)
+              else node_handle_with self rules (mkPkt self svc_ping (p_fromnode p) (p_fromservice p)))
         else if beq_text (p_toservice p) svc_unreach then [(p, None)]
         else if listening then [(p, None)]
         else if beq_text (p_fromnode p) self then []            (* an error to the local sender *)
